@@ -12,6 +12,12 @@ from ..par import pmap
 
 def _count(sp):
     r = killrun.run(dict(sp, kill_at=0))
+    # reference: stop right before the event.  A send that RAISED earlier in the history (unencodable text, duplicate
+    # number) has drawn a number in memory that was never journaled or sent: the live counter is ahead of the stored one
+    # by that many "burnt" numbers, which a restart legitimately forgets.  All clauses compare restored + burnt.
+    ref = killrun.run(dict(sp, kill_at=-1, jfile=sp["jfile"][:-3] + "_ref.db", cont=[]))
+    burnt = {"nin": r["pre"]["nin"] - ref["restored"]["nin"], "nout": r["pre"]["nout"] - ref["restored"]["nout"]}
+    r["burnt"] = burnt
     return len(r["bounds"]), r
 
 
@@ -47,17 +53,20 @@ def run_kill(ctx, out):
     try:
         base = kill_specs(ctx, jdir)
         counts = pmap(_count, base)
-        specs = []
-        recs = []
+        specs = [dict(sp, kill_at=0) for sp in base]          # the counting runs (not killed), in the order of `base`
+        recs = [r0 for (_, r0) in counts]
+        kills = []
         for sp, (b, r0) in zip(base, counts):
-            recs.append(r0)
-            specs.append(dict(sp, kill_at=0))
             for k in range(1, b + 1):
-                specs.append(dict(sp, id="%s@%d" % (sp["id"], k), kill_at=k, jfile=sp["jfile"][:-3] + "_%d.db" % k))
-        if len(specs) - len(base) < len(base):
-            raise tlc.MachineryError("vacuity: only %d boundaries for %d (prefix, event) pairs" % (len(specs) - len(base), len(base)))
-        ctx.log("kill points: %d (prefix, event) pairs, %d boundaries; executing one killed-and-restarted run per boundary" % (len(base), len(specs) - len(base)))
-        recs += pmap(killrun.run, specs[len(base):])
+                kills.append(dict(sp, id="%s@%d" % (sp["id"], k), kill_at=k, jfile=sp["jfile"][:-3] + "_%d.db" % k, burnt=r0["burnt"]))
+        if len(kills) < len(base):
+            raise tlc.MachineryError("vacuity: only %d boundaries for %d (prefix, event) pairs" % (len(kills), len(base)))
+        ctx.log("kill points: %d (prefix, event) pairs, %d boundaries; executing one killed-and-restarted run per boundary" % (len(base), len(kills)))
+        more = pmap(killrun.run, kills)
+        for sp2, r2 in zip(kills, more):
+            r2["burnt"] = sp2["burnt"]
+        specs += kills
+        recs += more
     finally:
         shutil.rmtree(jdir, ignore_errors=True)
     eval_kill(ctx, out, recs, specs)
@@ -69,11 +78,12 @@ def run_kill(ctx, out):
 
 
 def eval_kill(ctx, out, recs, specs):
-    slim = [{k: r[k] for k in ("id", "pre", "post", "bounds", "completed", "raised", "restored", "live2", "restored2", "wire", "cont_error")} for r in recs]
+    slim = [{k: r[k] for k in ("id", "pre", "post", "bounds", "completed", "raised", "restored", "live2", "restored2", "wire", "cont_error", "burnt")} for r in recs]
     verd = tlc.evaluate(ctx.sub("evalk"), "KillEval", slim, shard_size=max(20, len(slim) // 16 + 1), jobs=16, timeout=1200)
     for r, v, sp in zip(recs, verd, specs):
         out.traces += 1
         inp = {"kill": {k: sp[k] for k in ("id", "revs", "target", "cont", "kill_at")}}
+        r.setdefault("burnt", {"nin": 0, "nout": 0})
         if r.get("harness_error"):
             out.failures.append({"clause": "HARNESS", "triggers": [], "input": inp, "detail": r["harness_error"], "trace": None})
             continue
@@ -104,6 +114,7 @@ def replay(ctx, inp):
         try:
             sp = dict(inp["kill"], jfile=os.path.join(jdir, "r.db"))
             rec = killrun.run(sp)
+            rec["burnt"] = _count(sp)[1]["burnt"]
         finally:
             shutil.rmtree(jdir, ignore_errors=True)
         eval_kill(ctx, out, [rec], [sp])
